@@ -150,7 +150,7 @@ func (g *Gen) genForeign() *FImg {
 	f.FLen = cur
 	if f.TableBehind {
 		// the descriptor table lies behind the data section (a writer that appends its index)
-		f.DOff = cur + int64(pick(r, []int{0, 3, 585, 4096}))
+		f.DOff = f.DataOff + f.DataSize + int64(pick(r, []int{0, 3, 585, 4096}))
 		f.DSize = 585*int64(n) + int64(pick(r, []int{0, 0, 7}))
 		f.FLen = f.DOff + f.DSize
 		g.count("foreign:table-behind-data")
